@@ -37,11 +37,11 @@ def classify(pieces, cuts):
     return None
 
 
-def gen_stream(rng, small):
+def gen_stream(rng, small, junk=0.15):
     n = rng.randrange(1, 3 if small else 5)
     pieces = []
     for i in range(n):
-        if rng.random() < 0.15:
+        if rng.random() < junk:
             g = gen_garbage(rng)
             if g:
                 pieces.append(("G", g))
@@ -114,6 +114,13 @@ def plan(ctx):
             jobs.append((pieces, [c]))
         for _ in range(ctx.scale(60, 1500)):
             jobs.append((pieces, rng.sample(range(1, L), 2)))
+    # every run, whatever the seed: small streams with junk in front of EVERY frame, every single cut
+    # (added after seeded change C03-8, which reverted the junk-aware completeness test and was missed with seed 0)
+    for _ in range(ctx.scale(5, 40)):
+        pieces = gen_stream(rng, True, junk=1.0)
+        L = sum(len(b) for _, b in pieces)
+        for c in range(1, L):
+            jobs.append((pieces, [c]))
     for _ in range(ctx.scale(250, 6000)):
         pieces = gen_stream(rng, False)
         L = sum(len(b) for _, b in pieces)
